@@ -25,6 +25,12 @@ def main():
     src = "%s/SEEDED/%s" % (wt, k)
     dst = "%s/seeded/%s-%s" % (VERIF, pid, k)
     os.makedirs(dst, exist_ok=True)
+    prev = {}
+    if os.path.exists(os.path.join(dst, "meta.json")):
+        try:
+            prev = json.load(open(os.path.join(dst, "meta.json"))).get("verif", {})
+        except Exception:
+            prev = {}
     for f in os.listdir(src):
         shutil.copy(os.path.join(src, f), os.path.join(dst, f))
     meta = json.load(open(os.path.join(dst, "meta.json")))
@@ -42,12 +48,20 @@ def main():
             out["confirmed"]["demo_fails_with_patch"] = rc != 0
             out["confirmed"]["demo_output_with_patch"] = o[-400:]
         sh("git checkout -- .", cwd=wt)
-        sh("git clean -fdq -e SEEDED", cwd=wt)
+        sh("git clean -fdq -e 'SEEDED*'", cwd=wt)
         if demo:
             rc, o = sh("bash %s/%s %s" % (src, demo, wt), cwd=wt, timeout=1800)
             out["confirmed"]["demo_passes_without_patch"] = rc == 0
         sh("git checkout -- .", cwd=wt)
-        sh("git clean -fdq -e SEEDED", cwd=wt)
+        sh("git clean -fdq -e 'SEEDED*'", cwd=wt)
+    if not out["confirmed"]:
+        out["confirmed"] = prev.get("confirmed", {})
+    if "--confirm-only" in sys.argv:
+        out["checks"] = prev.get("checks", {})
+        meta["verif"] = out
+        json.dump(meta, open(os.path.join(dst, "meta.json"), "w"), indent=1)
+        print(pid, k, json.dumps(out["confirmed"])[:200])
+        return
     # run the checks against /repo with the patch applied
     checks = [c for c in checks if not c.startswith("--")]
     rc, o = sh("git -C /repo status --porcelain")
